@@ -175,6 +175,75 @@ def many_zones_and_perms(ctx):
     ctx.sample(sub, {"zones": 1000, "permutations": 720})
 
 
+def zone_counts(ctx):
+    """Every number of zones K in 1..300 [1..1100] and the sizes around every power of two up to 1025 [65537]: each zone
+    populated (two pixels, one of them possibly nodata), some pixels outside all zones, through the accessor on numpy- and
+    dask-backed cubes and through the kernel, for every zone-raster dtype / marker that can hold the ids."""
+    import pandas as pd
+    import xarray as xr
+    zm = _zonal()
+    sub = "zone_counts"
+    ks = set(range(1, 1101 if ctx.thorough() else 301))
+    for e in range(1, 17 if ctx.thorough() else 11):
+        ks |= {2 ** e - 1, 2 ** e, 2 ** e + 1}
+    ks |= {1000}
+    time = pd.date_range("2000-01-01", periods=2, freq="D")
+    nrun = 0
+    for K in sorted(ks):
+        # pixel j of zone z: two pixels per zone, three pixels outside all zones; stored interleaved, not sorted by zone
+        zid = np.concatenate([np.arange(K), np.arange(K)[::-1], [-1, -1, -1]]).astype(np.int64)
+        P = zid.size
+        v0 = ((np.arange(P) * 37) % 2001 - 1000).astype(np.int64)
+        v1 = ((np.arange(P) * 11 + 5) % 1999 - 900).astype(np.int64)
+        v1[::3] = ND
+        vals = np.stack([v0, v1])
+        valid = vals != ND
+        inside = zid >= 0
+        cnt = np.stack([np.bincount(zid[inside], weights=valid[t, inside].astype(np.float64), minlength=K) for t in range(2)]).astype(np.int64)
+        sm = np.stack([np.bincount(zid[inside], weights=np.where(valid[t, inside], vals[t, inside], 0).astype(np.float64), minlength=K) for t in range(2)])
+        with np.errstate(all="ignore"):
+            mean = np.where(cnt > 0, sm / np.maximum(cnt, 1), np.nan)
+        pix = vals.astype("int16").reshape(2, 1, P)
+        boundary = K in {2 ** e + d for e in range(1, 17) for d in (-1, 0, 1)}
+        combos = [(zdt, znd) for zdt, znd, cap in (("uint8", 255, 255), ("int16", -1, 32767), ("int16", 32767, 32767), ("uint16", 65535, 65535),
+                                                    ("int32", -1, 2 ** 31 - 1), ("int32", 2 ** 31 - 1, 2 ** 31 - 1), ("int64", -9999, 2 ** 62)) if K <= cap]
+        if K > 40 and not boundary:
+            combos = [combos[0], ("int32", -1)]   # plain sizes: the narrowest dtype that holds the ids, and int32
+        for zdt, znd in combos:
+            zr = np.where(zid < 0, znd, zid).astype(zdt).reshape(1, P)
+            for backend in ("kernel", "numpy", "dask"):
+                if backend != "kernel" and K > 2100 and K not in (32767, 32768, 32769, 65535, 65536, 65537):
+                    continue
+                key_fn = lambda t: {"num_zones": K, "zone_dtype": zdt, "zone_nodata": znd, "backend": backend, "step": int(t)}
+                case_fn = lambda t: {"kind": "zone_counts"}
+                try:
+                    if backend == "kernel":
+                        res = np.asarray(zm.do_mean(pix, zr, K, ND, znd, np.float64))
+                    else:
+                        da = xr.DataArray(pix, dims=("time", "y", "x"), coords={"time": time}, attrs={"nodata": ND})
+                        if backend == "dask":
+                            da = da.chunk({"time": 1})
+                        zda = xr.DataArray(zr, dims=("y", "x"), attrs={"nodata": znd})
+                        res = np.asarray(da.hdc.zonal.mean(zda, np.arange(K), dtype="float64").values)
+                except Exception as e:
+                    ctx.violation(sub, key_fn(0), case_fn(0), f"zonal mean over {K} zones ({zdt} raster, marker {znd}, {backend}) raised {type(e).__name__}: {e}")
+                    continue
+                nrun += 1
+                ctx.count(sub, evaluations=2 * K, nontrivial=2 * K, states=1)
+                if res.shape != (2, K, 2):
+                    ctx.violation(sub, dict(key_fn(0), what="shape"), case_fn(0), f"zonal mean over {K} zones ({zdt}, {backend}) has shape {res.shape}")
+                    continue
+                gm, gc = res[:, :, 0], res[:, :, 1]
+                bad = ~((np.abs(gm - mean) <= 2 * np.spacing(np.abs(mean))) | (np.isnan(gm) & np.isnan(mean))) | (gc != cnt)
+                if bad.any():
+                    t, z = map(int, np.argwhere(bad)[0])
+                    ctx.violation(sub, key_fn(t), case_fn(t),
+                                  f"zonal mean over {K} zones ({zdt} raster, marker {znd}, {backend}): zone {z} at step {t} -> mean {gm[t, z]!r}, count {gc[t, z]!r}; "
+                                  f"exact mean {mean[t, z]!r}, count {int(cnt[t, z])} ({int(bad.sum())} zone-steps differ)")
+    ctx.sample(sub, {"zone_counts": f"{min(ks)}..{max(ks)} ({len(ks)} sizes)", "runs": nrun,
+                     "rasters": "two pixels per zone + three outside, interleaved; int16 values with nodata in the second step"})
+
+
 def zone_dtypes(ctx):
     """Zone rasters of every integer dtype with the nodata value customary for it (also values outside int16)."""
     import pandas as pd
@@ -438,6 +507,7 @@ def run(ctx):
     large_zones(ctx)
     many_zones_and_perms(ctx)
     zone_dtypes(ctx)
+    zone_counts(ctx)
     value_dtypes(ctx)
     accessor(ctx)
     joint_zones(ctx)
@@ -467,6 +537,8 @@ def replay(sub, case, p):
         large_zones(p)
     elif case["kind"] == "zdt":
         zone_dtypes(p)
+    elif case["kind"] == "zone_counts":
+        zone_counts(p)
     elif case["kind"] == "joint_zones":
         joint_zones(p)
     elif case["kind"] == "vdt":
